@@ -2,7 +2,7 @@
 model phase : QR format words decode uniquely and block-table laws (MC_QRFormat); Aztec layer rule leaves >= the requested percentage (MC_Aztec); PDF417 / DataMatrix tables (MC_PDF417, MC_DM)
 trace valid.: the readers recover the declared level from the symbol itself (both QR format copies, PDF417 row indicators of every row, Aztec mode message) and count/validate
               the check words: tags level, ecc-percent and the Reed-Solomon / format / indicator / length conjuncts of the readers"""
-import vlib, onedim, gen
+import vlib, onedim, gen, encconf
 import C01, C02, C03
 
 TAGS = ("level", "ecc-percent", "structure-reed-solomon", "structure-format-info", "structure-row-indicators", "structure-length-descriptor",
@@ -62,6 +62,8 @@ def run(tier):
                    dict(module="MC_PDF417.tla", cfg="MC_PDF417.cfg", workers=4, heap="6g")])
     drive = vlib.build_harness(chk.work)
     jobs = c12_jobs(chk.rng, quick)
+    for d in encconf.aztec_selection(chk, quick):          # size choices where the real encoder left AztecSel!Select (tools/encconf.py)
+        jobs.append(gen.enc("aztec", d["content"], tuple(d["p"])))
     evs, extras = onedim.judge_multi(chk, drive, jobs, wanted, nshards=14 if quick else 16)
     ok = [e for e in evs if e["res"]["kind"] == "ok"]
     chk.cov["symbols_checked"] = len(ok)
